@@ -85,6 +85,26 @@ Proof.
   vm_compute. repeat split.
 Qed.
 
+(* On time: lateness is never carried over.  When nothing but the doers' work
+   and exact sleeps move the clock ([quiet]: no progress between reads, no
+   overshoot, no early wakeup; works never step back), the cycle starts and
+   deadlines are the recurrence [ideal]: deadline_k = start + (k+1) tocks and
+   cycle k+1 starts at max(its deadline, end of the work of cycle k) -- exactly on
+   the deadline whenever the work fits in the tock, however late earlier cycles
+   were.  (Together with C07_not_early this pins the quiet schedule completely.) *)
+Theorem C07_on_time : forall fuel tock tm w works out tmf wf,
+  quiet w -> Forall step_ok works -> no_retro works ->
+  do_real VSync (S (S fuel)) tock tm w works = Some (out, tmf, wf) ->
+  map (fun c => (c_now c, c_stop c)) (r_cycles out) = ideal (r_now out) (r_now out + tock) tock works.
+Proof. exact do_real_on_time. Qed.
+Print Assumptions C07_on_time.
+
+Example C07_on_time_example :   (* tock 8, pairs (start, deadline of the next start): work 3, 20 (2.5 tocks), 3, 3, 3 -> starts 0, 8, 28, 31, 34,
+     then 40: cycles run back to back until the grid k*8 is caught up, no lateness is kept *)
+  ideal 0 8 8 [(3, 0); (20, 0); (3, 0); (3, 0); (3, 0)] = [(0, 8); (8, 16); (28, 24); (31, 32); (34, 40)]
+  /\ ideal 0 8 8 [(3, 0); (3, 0); (3, 0)] = [(0, 8); (8, 16); (16, 24)].
+Proof. vm_compute. split; reflexivity. Qed.
+
 (* The model's wait loop has fuel; it cannot run out: a wait goes round again
    only after a backward jump was read or a sleep returned early, so a fuel
    above twice their number in the script (plus one) always suffices. *)
@@ -193,6 +213,13 @@ Proof.
   rewrite (ado_real_lossless _ _ _ _ _ _ E _ _ H1), (ado_real_lossless _ _ _ _ _ _ E _ _ H2). lia.
 Qed.
 Print Assumptions C07_ado_no_drift.
+
+Theorem C07_ado_on_time : forall fuel tock w works out wf,
+  quiet w -> Forall step_ok works -> no_retro works ->
+  ado_real (S (S fuel)) tock w works = Some (out, wf) ->
+  map (fun c => (c_now c, c_stop c)) (r_cycles out) = ideal (r_now out) (r_now out + tock) tock works.
+Proof. exact ado_real_on_time. Qed.
+Print Assumptions C07_ado_on_time.
 
 Theorem C07_ado_terminates : forall fuel tock w works,
   world_ok w -> Forall step_ok works -> (2 * bad w + 1 < fuel)%nat ->
